@@ -76,9 +76,9 @@ prop("C07", opts={"memprop": "C07"},
      nontrivial=[["timer_armed"], ["reauth_same_user"], ["reauth_other_user"], ["sigterm_mid_plan"], ["sigterm_inside_batch"], ["drop:length prefix above the maximum"], ["ws_upgraded"]],
      required_probes=["timer_armed", "timed_out", "owner_left_with_inflight", "sigterm_mid_plan", "sigterm_inside_batch", "sigterm_with_clients", "idle_baseline_checked", "exit_checked", "routing_table_full", "authenticated"])
 
-prop("C08", opts={"memprop": "C08"},
-     mix=[("c08", "default", 3), ("c08", "localonly", 1.5), ("c08", "small", 1)],
-     quick_mix=[("c08", "default", 2), ("c08", "localonly", 1)],
+prop("C08", opts={"memprop": "C08", "shadowprop": "C08"},
+     mix=[("c08", "default", 3), ("c08", "localonly", 1.5), ("c08", "small", 1), ("c08+af", "default", 1)],
+     quick_mix=[("c08", "default", 2), ("c08", "localonly", 1), ("c08+af", "default", 0.7)],
      quick_s=30, thorough_s=600,
      rule="generated credential files (1-5 users, up to 32 groups, DES/MD5/SHA hashes, page-multiple sizes), element access declarations and sequences of authenticate (right, wrong, repeated, other user, after fetch) / fetch / get / set / call "
           "on raw, unix and WebSocket peers from loopback and foreign origins, with seeded garbage in every fresh allocation; the reference model decides visibility and authorisation; every byte written or logged is scanned for the passwords. "
@@ -160,7 +160,7 @@ prop("C11", also=["C07/hygiene/.*"],
 prop("C15", kind="c15", level="fault_enumeration", corpus=46,
      mix=[("c15", "default", 1), ("c15", "small", 1), ("c15", "wsmall", 1), ("c15", "batch1", 1)],
      quick_mix=[("c15", "default", 1)],
-     random_mix=[("base+af", "default", 2), ("c03+af", "default", 1), ("c05+af", "default", 1), ("c01+af", "small", 1), ("c04+af", "batch1", 1), ("c16+af", "default", 0.5), ("c15h", "heapcap", 3)],
+     random_mix=[("base+af", "default", 2), ("c03+af", "default", 1), ("c05+af", "default", 1), ("c01+af", "small", 1), ("c04+af", "batch1", 1), ("c16+af", "default", 0.5), ("c08+af", "default", 1), ("c14+af", "default", 0.5), ("c15h", "heapcap", 3)],
      random_mix_quick=[("base+af", "default", 1), ("c04+af", "default", 1), ("c15h", "heapcap", 1.5)],
      random_quick_s=25, random_thorough_s=500,
      quick_s=100, thorough_s=1800,
